@@ -595,6 +595,17 @@ func (h *handler1) handleSubscribe(ctx context.Context, snSubscribe *snPkts1.Sub
 	// 	contains wildcard characters
 	// We will use topicID=0 in such cases. SubackMessage
 	var topicID uint16
+	// QoS 3 (-1) is defined for PUBLISH only and a zero packet identifier
+	// is not legal in MQTT: such a SUBSCRIBE cannot be passed to the MQTT
+	// broker.
+	if snSubscribe.QOS > 2 {
+		snSuback := snPkts1.NewSuback(0, snPkts1.RC_NOT_SUPPORTED, 0)
+		snSuback.CopyMessageID(snSubscribe)
+		return h.snSend(snSuback)
+	}
+	if snSubscribe.MessageID() == 0 {
+		return errors.New("zero MsgID in SUBSCRIBE")
+	}
 	switch snSubscribe.TopicIDType {
 	case snPkts1.TIT_STRING:
 		topic = string(snSubscribe.TopicName)
@@ -642,6 +653,10 @@ func (h *handler1) handleSubscribe(ctx context.Context, snSubscribe *snPkts1.Sub
 }
 
 func (h *handler1) handleUnsubscribe(snUnsubscribe *snPkts1.Unsubscribe) error {
+	// A zero packet identifier is not legal in MQTT.
+	if snUnsubscribe.MessageID() == 0 {
+		return errors.New("zero MsgID in UNSUBSCRIBE")
+	}
 	var topic string
 	switch snUnsubscribe.TopicIDType {
 	case snPkts1.TIT_STRING:
@@ -752,6 +767,14 @@ func (h *handler1) handleMqttSn(ctx context.Context, pkt snPkts.Packet) error {
 
 	// Client REGISTER transaction.
 	case *snPkts1.Register:
+		// A topic name with a wildcard can be used in SUBSCRIBE only.
+		// It must not get a TopicID: a PUBLISH to it could not be
+		// passed to the MQTT broker.
+		if hasWildcard(snPkt.TopicName) {
+			m2 := snPkts1.NewRegack(0, snPkts1.RC_NOT_SUPPORTED)
+			m2.CopyMessageID(snPkt)
+			return h.snSend(m2)
+		}
 		returnCode := snPkts1.RC_ACCEPTED
 		topicID, err := h.registerTopic(snPkt.TopicName)
 		if err != nil {
